@@ -418,7 +418,7 @@ META["C09"] = {
     "COMPONENTS": {"real": ["DenseWienerIntegrated / Isotropic / BlockDiag transition()", "DenseExponential.transition (Pade/Legendre order 9 + doubling)",
                             "preconditioner_taylor", "system_matrices_1d_iwp / cholesky_hilbert", "LatentCond.merge (composition)"],
                    "stub": [], "seam": ["transition() wrapper installed for the duration of a run (in-run monitor)", "flow seam"]},
-    "PROBES": ["transitions_checked", "exponential_prior", "q>=6", "checkpoint_splits_composed", "twin_base_scale"],
+    "PROBES": ["transitions_checked", "exponential_prior", "q>=6", "checkpoint_splits_composed", "twin_base_scale", "pade_orders_probed"],
     "ASSUMPTIONS": ["partial: step sizes and scales are those the simulated runs reach (h in [1e-4, 0.5], q<=8, d<=3, float64, "
                     "Pade/Legendre order 9 only); orders 3/5/7/13 and float32 are unreachable through float64 solves and are NOT covered"],
     "LEVEL_TEXT": "In-run invariant monitor: every prior discretisation executed by seeded simulated runs is compared with the exact "
